@@ -307,6 +307,23 @@ func c03Pref64(c *Ctx) {
 		c.R.Check(ok && rg.Lo.Sign() >= 0 && rg.Hi.Cmp(hi) <= 0, "R-C03-3", c.fname(np)+":lifetime-range", c.fname(np), c.pos(fs.Store.Pos()), fmt.Sprintf("Lifetime = %s ∈ %s for max_interval ∈ [4s,1800s]", shortExpr(e), rg),
 			"within [0, 65528s]", "PREF64 lifetime does not fit the 13-bit scaled field")
 	}
+	// every other writer of the option's lifetime: the stored value must be bounded by its own expression
+	// (constants, min/max clamps) — a value that arrives through a parameter is not
+	var others []*ssa.Function
+	for _, fn := range c.srcFuncs() {
+		if fn != np && fn.Pkg != nil && strings.HasPrefix(fn.Pkg.Pkg.Path(), Mod) {
+			others = append(others, fn)
+		}
+	}
+	for _, fs := range an.FindFieldStores(others, PkgNDP, "PREF64", "Lifetime") {
+		e := c.X.Of(fs.Store.Val)
+		rg, ok := an.EvalRange(e, an.Env{})
+		hi := new(big.Rat).SetInt64(8191 * 8 * nsS)
+		okIn := ok && rg.Lo != nil && rg.Hi != nil && rg.Lo.Sign() >= 0 && rg.Hi.Cmp(hi) <= 0
+		wfn := fs.Store.Parent()
+		c.R.Check(okIn, "R-C03-3", c.fname(wfn)+":lifetime-range", c.fname(wfn), c.pos(fs.Store.Pos()), fmt.Sprintf("Lifetime = %s ∈ %s", shortExpr(e), rg),
+			"within [0, 65528s] by construction", "PREF64 lifetime written outside NewPREF64 is not bounded to the 13-bit scaled field: the option fails to encode")
+	}
 }
 
 // c03LLA (R-C03-4): the source link-layer address option is only emitted for
